@@ -15,7 +15,7 @@ from . import probes
 from .jobs import REGISTRY, Collector, job
 from . import spec as S
 from .spec import jsonable
-from .sym import Sym, same, short
+from .sym import Opaque, Sym, same, short
 
 
 class Built:
@@ -25,6 +25,7 @@ class Built:
 def build_ref(prog, plain, strip_flags=False, sites=None, prefix=""):
     """Plain-Python environment. `sites` collects per-call-site activity: full node id -> dict."""
     env = {"and_": lambda a, b: a and b, "or_": lambda a, b: a or b, "not_": lambda a: not a}
+    env.update(G.NAMED_CONSTS)
     lids = G.local_ids(prog)
     for st in prog["stmts"]:
         if st["op"] == "call":
@@ -51,11 +52,11 @@ def build_ref(prog, plain, strip_flags=False, sites=None, prefix=""):
 
             env["%s_s%d" % (prog["name"], st["site"])] = mk()
     for iname, ip in prog["inner"].items():
-        ienv = build_ref(ip, plain, strip_flags, sites, prefix + iname + ".")
+        ienv = build_ref(ip, plain, strip_flags, sites, prefix + (ip.get("qualname") or iname) + ".")
         inner_fn = ienv[iname]
         dead = G.dead_value(ip)
 
-        def mkd(inner_fn=inner_fn, dead=dead, ip=ip, prefix2=prefix + iname + "."):
+        def mkd(inner_fn=inner_fn, dead=dead, ip=ip, prefix2=prefix + (ip.get("qualname") or iname) + "."):
             def call(*a, twz_active=True):
                 if not twz_active:
                     if sites is not None:
@@ -109,6 +110,7 @@ def build_twz(prog, plain, cfg, strip_flags=False, top=True):
     from tawazi import Resource, and_, dag, not_, or_, xn
 
     env = {"and_": and_, "or_": or_, "not_": not_}
+    env.update(G.NAMED_CONSTS)
     via_config = cfg.get("attrs_via") != "decorator"
     xns = {}
     for name, fs in prog["fns"].items():
@@ -124,6 +126,9 @@ def build_twz(prog, plain, cfg, strip_flags=False, top=True):
     for iname, ip in prog["inner"].items():
         env[iname] = build_twz(ip, plain, cfg, strip_flags, top=False)
     exec(compile(G.render(prog, strip_flags), "<%s>" % prog["name"], "exec"), env)  # noqa: S102
+    if prog.get("qualname"):
+        env[prog["name"]].__name__ = prog["pyname"]
+        env[prog["name"]].__qualname__ = prog["qualname"]
     if not top:
         return S.declare_dag(env[prog["name"]], dict(max_concurrency=cfg.get("inner_mc", 1)), prog["name"], salt=str(len(prog["stmts"])))
     d = S.declare_dag(env[prog["name"]], dict(max_concurrency=cfg["mc"] if cfg.get("mc_via") == "decorator" else 1, is_async=cfg["is_async"]),
@@ -180,7 +185,16 @@ def gen_cfg(rng):
 def gen_args(rng, prog, nonce):
     nreq = len(prog["params"]) - len(prog["defaults"])
     na = rng.randint(nreq, len(prog["params"]))
-    return [Sym("arg", nonce, i) if rng.random() < 0.7 else rng.choice(G.CONSTS + G.FALSY_TRUTHY) for i in range(na)]
+    out = []
+    for i in range(na):
+        r = rng.random()
+        if r < 0.6:
+            out.append(Sym("arg", nonce, i))
+        elif r < 0.75:
+            out.append(Opaque(nonce, i))  # identity-sensitive, uncopyable argument
+        else:
+            out.append(rng.choice(G.CONSTS + G.FALSY_TRUTHY))
+    return out
 
 
 def run_twz(d, args, cfg):
@@ -320,6 +334,8 @@ def one_program(col, pid, rng, feats, depth, pidx, reps=3, clauses=True, flavour
     if flavours == "sync":
         cfg["is_async"] = False
     rp = {"kind": "diff_case", "prog": prog, "cfg": cfg, "feats": feats, "sources": G.all_sources(prog)}
+    for t in G.TOGGLES:
+        t.on = rng.random() < 0.5  # truthiness while the DAG is described; re-drawn before every call
     try:
         d = build_twz(prog, plain, cfg)
     except BaseException as e:  # noqa: BLE001
@@ -331,6 +347,8 @@ def one_program(col, pid, rng, feats, depth, pidx, reps=3, clauses=True, flavour
     nsites = sum(1 for st in prog["stmts"] if st["op"] in ("call", "dag"))
     for rep in range(reps):
         args = gen_args(rng, prog, (pidx << 8) | rep)
+        for t in G.TOGGLES:
+            t.on = rng.random() < 0.5
         sites = {}
         renv = build_ref(prog, plain, sites=sites)
         probes.reset_counts()
@@ -419,9 +437,13 @@ def _replay_diff(j, rp):
     plain = mkplain(prog)
     pid = j.get("pid") or rp.get("pid") or "C01"
     rng = random.Random(1)
-    for attempt in range(4):
+    for attempt in range(8):
+        for t in G.TOGGLES:
+            t.on = bool(attempt & 1)  # truthiness while described ...
         d = build_twz(prog, plain, cfg)
         args = gen_args(rng, prog, attempt)
+        for k, t in enumerate(G.TOGGLES):
+            t.on = bool((attempt >> (1 + k)) & 1)  # ... and while called
         sites = {}
         renv = build_ref(prog, plain, sites=sites)
         probes.reset_counts()
